@@ -422,6 +422,12 @@ def run_case(case):
                     new = tgt
             elif name == "center":
                 tag = "center-mass" if flag else "center"
+                if kind in ("neg", "rev") and not flag:
+                    # the coordinate array is edited in place (a numpy operation on trajectory.xyz, no setter runs) before it is
+                    # centred: whatever was cached about the earlier coordinates must not make the centring a no-op
+                    src.t.xyz[...] += np.float32(0.75 + (r % 5))
+                    src.xyz = src.t.xyz.copy()
+                    tag = "edit-in-place-then-center"
                 before = src.xyz.astype(np.float64)
                 src.t.center_coordinates(mass_weighted=flag)
                 if flag:
